@@ -46,6 +46,8 @@ pub struct World {
     pub ready: HashMap<u64, VecDeque<Ready>>,
     pub next_uni_id: u64,
     pub next_bidi_id: u64,
+    /// receive scripts for successive locally opened bidirectional streams (default: nothing arrives)
+    pub opened_bidi_events: VecDeque<Vec<RecvEvent>>,
     pub log: Log,
 }
 
@@ -205,8 +207,9 @@ impl quic::OpenStreams<Bytes> for Mock {
         let mut w = self.world.lock().unwrap();
         let id = w.next_bidi_id;
         w.next_bidi_id += 4;
+        let events: VecDeque<RecvEvent> = w.opened_bidi_events.pop_front().unwrap_or_default().into();
         Poll::Ready(Ok(MockBidi {
-            recv: MockRecv { id, events: VecDeque::new(), world: self.world.clone() },
+            recv: MockRecv { id, events, world: self.world.clone() },
             send: MockSend { id, world: self.world.clone(), pending: Vec::new() },
         }))
     }
